@@ -56,9 +56,16 @@ def epoch_cases(rng, tier):
               10**9, 2**31 - 1, 2**31, -2**31, 10**10, -10**10, 951782400, 68255999, 4102444800, -2208988800]
     # the model walks month by month: counts of 1e11 s (three thousand years) cost ~0.5 s each, so only a few
     big = [10**11, -10**11, 253402300799, 253402300800, -62135596801]
+    from props.common import day_number, year_len
     for i in range(n):
         md = MODES[i % 4]
         c = (rng.choice(big) if i % 100 == 0 else rng.choice(counts)) + rng.choice([0, 0, 1, -1, rng.randint(-10**5, 10**5)])
+        if i % 5 == 4:
+            # counts that land on the first/last days of a year (and around the end of February) of boundary years,
+            # among them the years a whole number of 400-year cycles from 1970: the carries of the day walk
+            y = rng.choice([1970 + 400 * k for k in (-2, -1, 1, 2)] + [1900, 2000, 2100, 1968, 1972, 1600, 2400, 1, 0, 1969, 1971, 2038, 9999])
+            doy = rng.choice([1, 2, 59, 60, 61, year_len(md, y) - 1, year_len(md, y)])
+            c = (day_number(md, y, doy) - day_number(md, 1970, 1)) * 86400 + rng.choice([0, 1, 43200, 86399, 3723])
         q = Fraction(c)
         if c >= 0 and rng.random() < 0.15:
             q += rng.choice([Fraction(1, 2), Fraction(1, 4), Fraction(3, 4)])
